@@ -265,6 +265,14 @@ def run_decision_table(ctx: Ctx, rule: str) -> None:
 
 
 # ---------------------------------------------------------------------- should_rerun (C03.6, C10.1)
+import re as _re
+
+_ALL = r"\[r\['status'\]\.lower\(\) for r in self\.shared(?:_filtered)?_results\]"
+#: the complete list of statuses obtained so far (never a slice or a subset of it)
+STATUSES_RX = _re.compile(r"^empty\(\{\*" + _ALL + r"\} - \{\*.*\}\)$")
+STOP_RX = _re.compile(r"^empty\(\{\*self\.params\.get_list\('stop_status', \[\]\)\} & \{\*" + _ALL + r"\}\)$")
+LEFT_RX = _re.compile(r"^0 < self\.params\.get_numeric\('max_tries', .*\) - len\(" + _ALL + r"\)$")
+
 STATUS_UNIVERSE = ["fail", "error", "pass", "warn", "skip", "cancel", "interrupted", "unknown"]
 
 
@@ -310,12 +318,12 @@ def should_rerun_table(ctx: Ctx, rule: str) -> None:
         M("BAD", neg=True, pred=lambda t: t.startswith("empty({*_ST} - {*")),
         M("NEG", pred=lambda t: t.endswith(" < 0") and "'max_tries'" in t),
         M("ONE", pred=lambda t: t.endswith(" == 1") and "'max_tries'" in t),
-        # len({*test_statuses} - {*rerun_status}) > 0   (emptiness atom => negate)
-        m_neg("VIOL", lambda t: t.startswith("empty({*[") and " - {*" in t and "'rerun_status'" in t),
+        # len({*test_statuses} - {*rerun_status}) > 0   (emptiness atom => negate); ALL statuses so far, lower-cased
+        m_neg("VIOL", lambda t: STATUSES_RX.match(t) is not None and t.startswith("empty({*[") and "'rerun_status'" in t),
         # len({*stop_status} & {*test_statuses}) > 0
-        m_neg("STOP", lambda t: t.startswith("empty({*self.params.get_list('stop_status'") and " & {*[" in t),
+        m_neg("STOP", lambda t: STOP_RX.match(t) is not None),
         # reruns_left > 0 with reruns_left = max_tries - len(test_statuses)
-        m_statuses("LEFT", lambda t: t.startswith("0 < ") and "'max_tries'" in t and " - len([" in t),
+        m_statuses("LEFT", lambda t: LEFT_RX.match(t) is not None),
     ]
     names = ["DRY", "FLAT", "CLONED", "WK", "WIN", "REPLAY", "S", "BAD", "NEG", "ONE",
              "VIOLS", "VIOLF", "STOPS", "STOPF", "LEFTS", "LEFTF"]
